@@ -18,6 +18,7 @@ import (
 	"fmt"
 	"go/ast"
 	"go/token"
+	"strconv"
 	"strings"
 
 	"go.uber.org/nilaway/config"
@@ -92,7 +93,9 @@ func groupConflicts(allConflicts []conflict, pass *analysishelper.EnhancedPass) 
 				// 	}
 				// ```
 				// Here, the two error messages are exactly the same, but they should not be grouped together as they are
-				// from different functions. To handle such cases, we prepend the enclosing function name to the key.
+				// from different functions. To handle such cases, we prepend the enclosing function name to the key,
+				// together with the file and offset of its declaration: two methods of different receiver types (or the
+				// `init` functions of a package) may share a name.
 				conf := pass.ResultOf[config.Analyzer].(*config.Config)
 				for _, file := range pass.Files {
 					fileName := tokenhelper.RelToCwd(pass.Fset.Position(file.FileStart).Filename)
@@ -107,7 +110,7 @@ func groupConflicts(allConflicts []conflict, pass *analysishelper.EnhancedPass) 
 							functionStart := pass.Fset.Position(fd.Pos()).Offset
 							functionEnd := pass.Fset.Position(fd.End()).Offset
 							if c.position.Offset >= functionStart && c.position.Offset <= functionEnd {
-								key = fd.Name.Name + ":" + key
+								key = fd.Name.Name + "@" + fileName + ":" + strconv.Itoa(functionStart) + ":" + key
 								break
 							}
 						}
